@@ -258,6 +258,7 @@ def check_eq(ctx, mod, cname, fn):
     bad, unsure, n = None, None, 0
     table = {}
     for o in outs:
+        o.word = tuple(x for x in o.word if x != "$")
         if len(o.word) == 0:
             continue  # n >= 1
         n += 1
